@@ -1256,7 +1256,10 @@ class Interp:
         if isinstance(s, ast.Assign):
             out = []
             shared = isinstance(s.value, (ast.Name, ast.Attribute, ast.Call)) and all(isinstance(t, (ast.Name, ast.Attribute)) for t in s.targets)
-            for r in self.eval(s.value, st, fr, share=shared):
+            values = self.eval(s.value, st, fr, share=shared)
+            if any(isinstance(t, (ast.Tuple, ast.List)) for t in s.targets):
+                values = self._forced(values, fr)   # a, b = map(...): unpacking consumes the iterator
+            for r in values:
                 if r.kind == "exc":
                     out.append(("raise", r.value, r.state))
                     continue
@@ -1312,6 +1315,12 @@ class Interp:
                 else:
                     hook = getattr(d, "raised_value", None)
                     v = hook(s, r.value, r.state, fr) if hook else ("raised", norm(s.exc)[:40])
+                    if _TRACE_EXC and _TRACE_EXC in repr(v):
+                        c_, chain_ = fr, []
+                        while c_ is not None:
+                            chain_.append(c_.name)
+                            c_ = c_.caller
+                        print("RAISE", v if len(repr(v)) < 80 else repr(v)[:80], "at line", s.lineno, "in", " <- ".join(chain_[:6]))
                     out.append(("raise", v, r.state))
             return self._dd(out)
         if isinstance(s, ast.Pass) or isinstance(s, (ast.Import, ast.ImportFrom, ast.Global, ast.Nonlocal)):
